@@ -35,8 +35,19 @@ def _build(ctx):
     return seq.build_plain(ctx, ['C58_msg.cc'], objects=objs, extra_ld=['-ldl'])
 
 
-def run(ctx):
+
+def _timed_build(ctx):
+    """Compiling and linking the harness is build time as well: like ctx.vbuild(), do not charge it to the
+    tier deadline (under load the link of a unit-test set alone can take minutes)."""
+    import time
+    t, b0 = time.time(), getattr(ctx, 'build_s', 0.0)
     exe = _build(ctx)
+    ctx.deadline_s += max(0.0, (time.time() - t) - (getattr(ctx, 'build_s', 0.0) - b0))
+    return exe
+
+
+def run(ctx):
+    exe = _timed_build(ctx)
     m = seq.run(ctx, exe)
     oc = m['outcomes']
     if not m['failures'] and not m['crashes'] and not m['deadline_hit']:
